@@ -1727,6 +1727,6 @@ def partition_distance(cx, cy):
     Hy = -np.sum(Py * np.log(Py))
     Hxy = -np.sum(Pxy * np.log(Pxy))
 
-    Vin = (2 * Hxy - Hx - Hy) / np.log(n)
-    Min = 2 * (Hx + Hy - Hxy) / (Hx + Hy)
+    Vin = (2 * Hxy - Hx - Hy) / np.log(n) if n > 1 else 0.0
+    Min = 2 * (Hx + Hy - Hxy) / (Hx + Hy) if Hx + Hy > 0 else 1.0
     return Vin, Min
